@@ -91,8 +91,18 @@ Local == /\ Ev.ev = "Local" /\ nreply' = nreply + 1
 
 Reset == Ev.ev = "Reset" /\ NoNote /\ UNCHANGED <<nlook, nreply>>
 
+(* ---- spec -> impl replay (Replay_Lookup.tla): the real lookup on a configuration TLC enumerated, next to the answer of the
+        implementation-shaped model for that configuration.  A difference is model drift (site "model"), not a verdict
+        on the property: the P-level clauses above judge the same lookup. ---- *)
+Model == /\ Ev.ev = "Model" /\ nreply' = nreply + 1
+         /\ IF Ev.hang \/ Ev.err # "" THEN NoNote
+            ELSE IF Ev.result # Ev.mresult THEN Note("ModelResult", "model", "result")
+            ELSE IF Ev.answered # Ev.manswered THEN Note("ModelAnswered", "model", "answered")
+            ELSE NoNote
+         /\ UNCHANGED nlook
+
 Init == l = 1 /\ viol = <<>> /\ nviol = 0 /\ nlook = 0 /\ nreply = 0
-Next == l <= N /\ l' = l + 1 /\ (Reset \/ Lookup \/ Reply \/ Local)
+Next == l <= N /\ l' = l + 1 /\ (Reset \/ Lookup \/ Reply \/ Local \/ Model)
 Spec == Init /\ [][Next]_vars
 Report == (l = N + 1) =>
   JsonSerialize(IOEnv.OUT, [consumed |-> l - 1, total |-> N, nviol |-> nviol, checked |-> nlook + nreply,
